@@ -362,14 +362,25 @@ func (c19) Run(ctx *Ctx, ci interface{}) (o Outcome) {
 				ph.SetReverse(cc.Reverse)
 				ph.SetCutEnd(cc.CutEnd)
 				ph.SetTranslate(cc.Translate, cc.Code)
+				if cc.LenCut != nil {
+					ph.SetLenCutoff(*cc.LenCut)
+				}
+				if cc.MatchCut != nil {
+					ph.SetMatchCutoff(*cc.MatchCut)
+				}
 				var in align.SeqBag
 				if orfs != nil {
 					in = orfs
 				}
 				if ch, err := ph.Phase(in, seqs); err == nil {
 					for r := range ch {
-						if r.Err == nil && r.NtSeq != nil && r.NtSeq.Length() > 0 {
-							r.NtSeq.SequenceChar()[0] = '#' // what is returned is the caller's to edit
+						if r.Err != nil {
+							continue
+						}
+						for _, sq := range []align.Sequence{r.NtSeq, r.CodonSeq, r.AaSeq} { // what is returned is the caller's to edit
+							if sq != nil && sq.Length() > 0 {
+								sq.SequenceChar()[0] = '#'
+							}
 						}
 					}
 				}
